@@ -890,6 +890,46 @@ def nconcat2(src, log):
         log.append("N7 [a, b].concat() -> vx_concat2(a, b)")
 
 
+def n18_rev_any(src, log):
+    """`E.iter().rev().any(|X| PRED)`  ->  a reverse index loop with early exit
+         { let mut __vx_rK = false; let mut __vx_iK = E.len(); while __vx_iK > 0 { __vx_iK -= 1; let X = &E[__vx_iK]; if PRED { __vx_rK = true; break; } } __vx_rK }
+    (definition of rev + any over a slice / Vec; `rev` has no vstd specification).  E may be a field path."""
+    k = 0
+    while True:
+        toks = lex(src)
+        hit = None
+        for c in find_closures(src, toks):
+            b0, b1, st, en, blk = c
+            if b1 != b0 + 2 or toks[b0 + 1].kind != "ident":
+                continue
+            t = toks
+            if not (b0 >= 10 and t[b0 - 1].text == "(" and t[b0 - 2].text == "any" and t[b0 - 3].text == "." and t[b0 - 4].text == ")"
+                    and t[b0 - 5].text == "(" and t[b0 - 6].text == "rev" and t[b0 - 7].text == "." and t[b0 - 8].text == ")"
+                    and t[b0 - 9].text == "(" and t[b0 - 10].text == "iter" and t[b0 - 11].text == "."):
+                continue
+            cl = t[b0 - 1].mate
+            if cl != en + 1:
+                continue
+            # receiver: identifiers joined by `.` ending right before `.iter`
+            r1 = b0 - 12
+            r0 = r1
+            while r0 - 2 >= 0 and t[r0 - 1].text == "." and t[r0 - 2].kind == "ident":
+                r0 -= 2
+            if t[r0].kind != "ident":
+                continue
+            hit = (r0, cl, src[t[r0].start:t[r1].end], t[b0 + 1].text, src[t[st].start:t[en].end])
+            break
+        if hit is None:
+            return src
+        i, cl, recv, param, pred = hit
+        r, ix = f"__vx_r{k}", f"__vx_i{k}"
+        rep = (f"{{ let mut {r} = false; let mut {ix} = {recv}.len(); while {ix} > 0 {{ {ix} -= 1; let {param} = &{recv}[{ix}]; "
+               f"if {pred} {{ {r} = true; break; }} }} {r} }}")
+        src = src[:toks[i].start] + rep + src[toks[cl].end:]
+        log.append(f"N18 {recv}.iter().rev().any(|{param}| ..) -> reverse index loop")
+        k += 1
+
+
 def n17_map_collect(src, log):
     """`E.into_iter().map(|X| { BODY }).collect()`  ->  `{ let mut __vx_vK = Vec::new(); for X in E { __vx_vK.push({ BODY }); } __vx_vK }`
     (definition of map + collect into a Vec: the items are produced in order; needed where the closure captures a `&mut`).
@@ -1077,6 +1117,8 @@ def normalise(src, rules, log, ctx=None):
             src = n9g_match_guard_general(src, log)
         elif r == "n13":
             src = n13_inline_emit_node(src, log, ctx.get("n13_def"))
+        elif r == "n18":
+            src = n18_rev_any(src, log)
         elif r == "n17":
             src = n17_map_collect(src, log)
         elif r == "n16":
